@@ -32,6 +32,36 @@ impl<T: RealNumber, D: Distance<Vec<T>, T>> G<T, D> {
     pub open spec fn has_core_nb(self, q: int) -> bool {
         exists|j: int| 0 <= j < self.n() && #[trigger] self.nb(q, j) && self.core(j)
     }
+    // a chain of core points, each within eps of the next (its end points are density-connected)
+    pub open spec fn core_path(self, path: Seq<int>) -> bool {
+        &&& path.len() >= 1
+        &&& forall|a: int| 0 <= a < path.len() ==> 0 <= #[trigger] path[a] < self.n() && self.core(path[a])
+        &&& forall|a: int| 0 <= a < path.len() - 1 ==> self.nb(#[trigger] path[a], path[a + 1])
+    }
+    pub open spec fn adjacent_cores_agree(self, y: Seq<i16>) -> bool {
+        forall|q: int, j: int| 0 <= q < self.n() && 0 <= j < self.n() && self.core(q) && self.core(j) && #[trigger] self.nb(q, j) ==> y[q] == y[j]
+    }
+    // adjacent core points agree => all core points along a chain agree
+    pub proof fn lemma_path(self, y: Seq<i16>, path: Seq<int>)
+        requires self.adjacent_cores_agree(y), self.core_path(path),
+        ensures y[path.first()] == y[path.last()]
+        decreases path.len()
+    {
+        if path.len() >= 2 {
+            let rest = path.drop_first();
+            assert forall|a: int| 0 <= a < rest.len() implies 0 <= #[trigger] rest[a] < self.n() && self.core(rest[a]) by {
+                assert(rest[a] == path[a + 1]);
+            }
+            assert forall|a: int| 0 <= a < rest.len() - 1 implies self.nb(#[trigger] rest[a], rest[a + 1]) by {
+                assert(rest[a] == path[a + 1] && rest[a + 1] == path[a + 2]);
+                assert(self.nb(path[a + 1], path[a + 2]));
+            }
+            self.lemma_path(y, rest);
+            assert(self.nb(path[0], path[1]));
+            assert(rest.first() == path[1] && rest.last() == path.last());
+        }
+    }
+
     // every core point with a label in [0, k) is closed: all its neighbours are clustered, its core neighbours in the same cluster
     pub open spec fn closed(self, y: Seq<i16>, k: int) -> bool {
         forall|q: int, j: int| #![trigger self.nb(q, j)]
@@ -468,6 +498,7 @@ impl<T: RealNumber, D: Distance<Vec<T>, T>> G<T, D> {
             all_used(y, k),
             forall|q: int| 0 <= q < self.n() && self.core(q) ==> #[trigger] y[q] >= 0,
             forall|q: int, j: int| 0 <= q < self.n() && 0 <= j < self.n() && self.core(q) && self.core(j) && #[trigger] self.nb(q, j) ==> y[q] == y[j],
+            forall|path: Seq<int>| #[trigger] self.core_path(path) ==> y[path.first()] == y[path.last()],
             forall|q: int| 0 <= q < self.n() && !self.core(q) && self.has_core_nb(q) ==> self.core_nb_labelled(y, q, #[trigger] y[q] as int),
             forall|q: int| 0 <= q < self.n() && #[trigger] y[q] == -1 ==> !self.core(q) && !self.has_core_nb(q),
             forall|q: int| 0 <= q < self.n() && !self.core(q) && !self.has_core_nb(q) ==> #[trigger] y[q] == -1,
@@ -478,6 +509,9 @@ impl<T: RealNumber, D: Distance<Vec<T>, T>> G<T, D> {
         }
         assert forall|q: int, j: int| 0 <= q < self.n() && 0 <= j < self.n() && self.core(q) && self.core(j) && #[trigger] self.nb(q, j) implies y[q] == y[j] by {
             assert(y[q] >= 0);
+        }
+        assert forall|path: Seq<int>| #[trigger] self.core_path(path) implies y[path.first()] == y[path.last()] by {
+            self.lemma_path(y, path);
         }
         // a point with a core neighbour is clustered
         assert forall|q: int| 0 <= q < self.n() && self.has_core_nb(q) implies #[trigger] y[q] >= 0 by {
